@@ -64,6 +64,7 @@ class Context:
         self.axsum_log = []
         self.sigma_terms = []
         V.ORACLE = self.implied
+        V.COMPLEX_ORDER = 'python'
 
     def implied(self, f):
         """quick check that f follows from the current hypotheses (used to pick the exact encoding of // and %)"""
